@@ -1,17 +1,20 @@
 #!/bin/bash
-# developer aid: apply a seeded patch to /repo, run the given checks (quick), undo the patch.
-# Evidence and replays of these runs go to /tmp/verif_mut/<name>/ so committed evidence is never polluted.
+# developer aid: run the given checks (quick) against a scratch worktree of /repo HEAD with a seeded patch applied.
+# (The brief's procedure - apply to /repo, run, undo - is what tools/seed_matrix.py --in-repo does; a worktree is used
+#  here because other builders may be running checks against /repo at the same time.)
+# Evidence and replays go to /tmp/verif_mut/<name>/ so committed evidence is never polluted.
 # usage: tools/try_patch.sh <patch.diff> <Cxx> [Cyy ...]
 patch=$(realpath "$1"); shift
 name=$(basename "$(dirname "$patch")")_$(basename "$(dirname "$(dirname "$patch")")")
 out=/tmp/verif_mut/$name; mkdir -p "$out"
+wt=/tmp/verif_mut_wt_$$
+git -C /repo worktree add --detach $wt -q || exit 3
+git -C $wt apply "$patch" || { echo "patch does not apply"; git -C /repo worktree remove --force $wt; exit 3; }
 cd /verif
-git -C /repo apply "$patch" || { echo "patch does not apply"; exit 3; }
 for id in "$@"; do
   t0=$(date +%s)
-  res=$(VERIF_EVIDENCE_DIR=$out/evidence VERIF_REPLAYS_DIR=$out/replays ./check $id --tier ${TIER:-quick} 2>&1); rc=$?
+  res=$(SOLVOR_REPO=$wt VERIF_EVIDENCE_DIR=$out/evidence VERIF_REPLAYS_DIR=$out/replays ./check $id --tier ${TIER:-quick} 2>&1); rc=$?
   echo "$id rc=$rc $(( $(date +%s) - t0 ))s :: $(echo "$res" | grep -E 'VIOLATION|KNOWN|INFRA' | head -3 | tr '\n' ' ')"
 done
-git -C /repo checkout -- .
-# the regenerated slice may have been rewritten from the patched source: put it back
+git -C /repo worktree remove --force $wt
 /venv/bin/python harness/kernels.py > /dev/null
